@@ -115,6 +115,12 @@ RankOK ==
 
 (* C04: real calibration sets *)
 IsCorr == T.kind = "corr"
+\* the calibration units are held out: both bound regressions were fitted on the same number of rows, and those rows and
+\* the calibration rows partition the reporting units (the code slices one shuffled frame at a single position)
+CorrHeldOut ==
+  IsCorr => /\ Chk("two_bound_fits", Len(T.nfit) = 2 /\ T.nfit[1] = T.nfit[2])
+            /\ Chk("at_least_one_training_unit", T.nfit[1] >= 1)
+            /\ Chk("calibration_units_held_out", T.nfit[1] + Len(T.rk) = T.n)
 CorrIsScore == IsCorr => Chk("population_correction_is_a_score", T.popRk \in {T.rk[i] : i \in DOMAIN T.rk})
 TWeightedCoverage   == (IsCorr /\ T.popRk >= 1) => Chk("weighted_coverage", WeightedCoverage)
 TSmallestCorrection == (IsCorr /\ T.popRk >= 1) => Chk("smallest_correction", SmallestCorrection)
